@@ -195,7 +195,9 @@ def _no_dup_semantic(a, cs, z, chain_required=True) -> bool:
     n = ("call", "len", (z,), ())
 
     def full_range(L, upper):
-        return L[3][0] == "range" and len(L[3]) == 3 and L[3][1] == K(0) and same_int(L[3][2], upper)
+        # one round per input: over the positions 0 .. n - 1 or over the inputs themselves
+        return (L[3][0] == "range" and len(L[3]) == 3 and L[3][1] == K(0) and same_int(L[3][2], upper)) \
+            or (upper == n and norm_iter(L[3]) == z)
 
     def one_each(t):
         return isinstance(t, tuple) and t and t[0] == "each" and len(t[1]) == 1 and not t[2]
@@ -228,9 +230,7 @@ def _no_dup_semantic(a, cs, z, chain_required=True) -> bool:
         return True
     if isinstance(chain, tuple) and chain and chain[0] == "each" and not chain[1] and len(chain[2]) == 1:
         # the chain appended only when there is a pair to order: `if n > 1` / `if len(sorted) >= 2`
-        g_ = norm(chain[2][0])
-        two = is_app(g_) and len(g_) == 4 and ((g_[1] == ">" and g_[3] == K(1)) or (g_[1] == ">=" and g_[3] == K(2))) and same_int(g_[2], n)
-        if not two:
+        if _pair_state(chain[2][0], z) is not True:
             return False
         chain = chain[3]
     if not (is_app(chain, "And") and len(chain) == 3 and one_each(chain[2])):
@@ -246,6 +246,86 @@ def _no_dup_semantic(a, cs, z, chain_required=True) -> bool:
         return False
     k_ = K(int(lp_.const))
     return same_int(add(Lc[3][1], k_), K(0)) and same_int(add(Lc[3][2], k_), sub(n, K(1)))
+
+
+def _value_branches(t, guards=()):
+    """the alternatives of a value merged from several returns: (guards with their truth value, value)"""
+    if isinstance(t, tuple) and t and t[0] == "phi" and len(t) == 4:
+        yield from _value_branches(t[2], guards + ((t[1], True),))
+        yield from _value_branches(t[3], guards + ((t[1], False),))
+    else:
+        yield guards, t
+
+
+def _count(t):
+    """number of elements of a sequence term as a term (len(x) for a name); zip(p, p[1:]) has len(p) - 1 pairs"""
+    if isinstance(t, tuple) and t and t[0] == "call" and t[1] in ("list", "tuple") and len(t[2]) == 1:
+        return _count(t[2][0])
+    if isinstance(t, tuple) and t and t[0] == "call" and t[1] == "zip" and len(t[2]) == 2 and not t[3] \
+            and t[2][1] == ("idx", t[2][0], ("slice", K(1), K(None), K(None))):
+        m = _count(t[2][0])
+        return None if m is None else sub(m, K(1))
+    if isinstance(t, tuple) and t and t[0] in ("list", "tuple") and len(t[1]) == 1 and t[1][0][0] == "each" \
+            and len(t[1][0][1]) == 1 and not t[1][0][2]:
+        src = t[1][0][1][0][3]
+        if src[0] == "range":
+            return length_of(src)
+        return _count(norm_iter(src)) if norm_iter(src) != t else None
+    m = length_of(t)
+    if m is None and isinstance(t, tuple) and t and t[0] in ("sym", "attr"):
+        return ("call", "len", (t,), ())
+    return m
+
+
+def _pair_state(g, z):
+    """True when the test g holds exactly for two or more inputs, False when exactly for fewer than two, None otherwise.  g is a
+    comparison of lengths, or the truth value of a sequence whose length is linear in len(z)"""
+    from sa.decide import lin
+
+    def known_len(t):
+        if isinstance(t, tuple) and len(t) == 4 and t[0] == "call" and t[1] == "len" and len(t[2]) == 1 and t[2][0] != z:
+            m = _count(t[2][0])
+            if m is not None:
+                return rewrite(m, known_len)
+        return None
+    nz = ("call", "len", (z,), ())
+    g = norm(g)
+    neg = False
+    while is_app(g, "not") and len(g) == 3:
+        g, neg = g[2], not neg
+    if is_app(g) and g[1] in ("<", "<=", ">", ">=", "==", "!=") and len(g) == 4:
+        l = lin(norm(rewrite(g[2], known_len))).add(lin(norm(rewrite(g[3], known_len))), -1)
+        op = g[1]
+    else:
+        inner = g[2] if is_app(g, "nonempty") and len(g) == 3 else g
+        m = _count(inner)
+        if m is None:
+            return None
+        l, op = lin(norm(rewrite(m, known_len))), ">"
+    if set(l.coef) - {nz} or l.coef.get(nz, 0) == 0:
+        return None
+    import operator as _o
+    f = {"<": _o.lt, "<=": _o.le, ">": _o.gt, ">=": _o.ge, "==": _o.eq, "!=": _o.ne}[op]
+    # a threshold test of a linear form with an integer coefficient: its truth on 0 .. 8 tells which threshold
+    table = [f(l.coef[nz] * k + l.const, 0) != neg for k in range(9)]
+    if table == [k >= 2 for k in range(9)]:
+        return True
+    if table == [k < 2 for k in range(9)]:
+        return False
+    return None
+
+
+def _no_dup_exact(rv, z, n) -> bool:
+    a, cs = rv[1]
+    if not (a[0] == "list" and len(a[1]) == 1 and a[1][0][0] == "each" and a[1][0][3][0] == "fresh"
+            and canon(a[1][0][1][0][3]) == canon(("range", K(0), n))):
+        return False
+    Li = loop("b0.0", ("range", K(0), n))
+    Lj = loop("b1.0", ("range", K(0), n))
+    Lc = loop("b0.0", ("range", K(0), sub(n, K(1))))
+    want = ("list", (("each", (Li,), (), app("Or", ("each", (Lj,), (), eq(("idx", a, elem(Li)), ("idx", z, elem(Lj)))))),
+                     app("And", ("each", (Lc,), (), lt(("idx", a, elem(Lc)), ("idx", a, add(elem(Lc), K(1))))))))
+    return canon(cs) == canon(want)
 
 
 def _passes_suffice(upper) -> bool:
@@ -264,23 +344,23 @@ def r_sort_net(ctx):
     fails_closed(ctx, "R-SORT-NET", runs)
     n = ("call", "len", (z,), ())
     for r in runs:
+        # a path on which the list is known to have fewer than two values has no pair to order
+        short = any(("len(" in k_ and (">= 2" in k_ or "> 1" in k_) and v_ is False) or ("len(" in k_ and ("< 2" in k_ or "<= 1" in k_) and v_ is True)
+                    for k_, v_ in r.decisions)
+        ok, seen = True, 0
+        for guards, rv in _value_branches(r.retval):
+            states = {(_pair_state(g, z) is v) if _pair_state(g, z) is not None else None for g, v in guards}
+            if True in states and False in states:
+                continue                            # `fewer than two` and `at least two` at once: not a path
+            if not (isinstance(rv, tuple) and rv[0] == "tuple" and len(rv[1]) == 2):
+                ok = False
+                break
+            seen += 1
+            ok = _no_dup_exact(rv, z, n) or _no_dup_semantic(rv[1][0], rv[1][1], z, chain_required=not (short or False in states))
+            if not ok:
+                break
         rv = r.retval
-        ok = isinstance(rv, tuple) and rv[0] == "tuple" and len(rv[1]) == 2
-        if ok:
-            a, cs = rv[1]
-            ok = a[0] == "list" and len(a[1]) == 1 and a[1][0][0] == "each" and a[1][0][3][0] == "fresh" \
-                and canon(a[1][0][1][0][3]) == canon(("range", K(0), n))
-        if ok:
-            Li = loop("b0.0", ("range", K(0), n))
-            Lj = loop("b1.0", ("range", K(0), n))
-            Lc = loop("b0.0", ("range", K(0), sub(n, K(1))))
-            want = ("list", (("each", (Li,), (), app("Or", ("each", (Lj,), (), eq(("idx", a, elem(Li)), ("idx", z, elem(Lj)))))),
-                             app("And", ("each", (Lc,), (), lt(("idx", a, elem(Lc)), ("idx", a, add(elem(Lc), K(1))))))))
-            # a path on which the list is known to have fewer than two values has no pair to order
-            short = any(("len(" in k_ and (">= 2" in k_ or "> 1" in k_) and v_ is False) or ("len(" in k_ and ("< 2" in k_ or "<= 1" in k_) and v_ is True)
-                        for k_, v_ in r.decisions)
-            ok = canon(cs) == canon(want) or _no_dup_semantic(rv[1][0], rv[1][1], z, chain_required=not short)
-        if ok:
+        if ok and seen:
             ctx.ok("R-SORT-NET", "util.sort_no_duplicates: every sorted value is one of the inputs, strictly increasing chain",
                    sample={"returns": show(norm(rv))[:300]})
         else:
